@@ -54,13 +54,13 @@ inline bool q_is_canonical(const rational_class &q)
 }
 inline integer_class &get_num(rational_class &q) { return q.num; }
 inline integer_class &get_den(rational_class &q) { return q.den; }
-inline integer_class get_num(const rational_class &q) { return q.num; }
-inline integer_class get_den(const rational_class &q) { return q.den; }
+inline const integer_class &get_num(const rational_class &q) { return q.num; }
+inline const integer_class &get_den(const rational_class &q) { return q.den; }
 namespace SymEngine {
 inline integer_class &get_num(rational_class &q) { return q.num; }
 inline integer_class &get_den(rational_class &q) { return q.den; }
-inline integer_class get_num(const rational_class &q) { return q.num; }
-inline integer_class get_den(const rational_class &q) { return q.den; }
+inline const integer_class &get_num(const rational_class &q) { return q.num; }
+inline const integer_class &get_den(const rational_class &q) { return q.den; }
 }
 inline void canonicalize(rational_class &q)
 {
@@ -121,6 +121,15 @@ inline long mp_abs(long j) { return j < 0 ? -j : j; }
 inline bool mp_fits_ulong_p(long j) { return j >= 0; }
 inline bool mp_fits_slong_p(long j) { return true; }      /* the one-word model: every value fits a long */
 inline long mp_get_si(long j) { return j; }
+inline void mp_gcd(long &g, long a, long b)
+{
+#ifdef EXACT_ABSTRACT
+  long x = nondet_long(); __CPROVER_assume(x >= 0 && x < (1L << 62) && ((x == 0) == (a == 0 && b == 0)) && (a == 0 || b == 0 || x >= 1));
+  g = x;
+#else
+  g = exact_gcd(a, b);
+#endif
+}
 inline int mp_cmpabs(long a, long b) { unsigned long x = a < 0 ? 0ul - (unsigned long)a : (unsigned long)a, y = b < 0 ? 0ul - (unsigned long)b : (unsigned long)b; return x < y ? -1 : (x > y ? 1 : 0); }
 inline unsigned long mp_get_ui(long j) { return j < 0 ? 0ul - (unsigned long)j : (unsigned long)j; }
 #ifndef POW_MAX
